@@ -30,6 +30,7 @@ type Ctx struct {
 	fnByKey map[string]*ssa.Function
 	cg      *callgraph.Graph
 	GoStmts int
+	lf      map[*ssa.Function]*lockFacts
 	Instrs  int
 }
 
